@@ -164,15 +164,15 @@ def _noisy_frame(rng, addr):
     return R.frame_with_parity(head + mb, int(addr, 16))
 
 
-def generate(run_seed, tier):
-    rw = substream(run_seed, "world")
-    rf = substream(run_seed, "faults")
-    rb = substream(run_seed, "batch")
-    long_run = tier != "quick" and rw.random() < 0.3
-    T = rw.choice([60, 120, 200, 300] + ([600, 900] if long_run else []))
-    base = rw.choice(BASES)
-    tmode = rw.choice(["float", "float", "ms", "int", "half"])
-    n_clean = rw.choice([1, 1, 2, 2, 3, 4, 6])
+def gen_world(rw, rf, T, budget, base=None, tmode=None, n_clean=None):
+    """World + channel: returns dict(base, tmode, receiver, aircraft, noisy,
+    msgs) with msgs = sorted [(t_rel, seq, 'a'|'c', hex, addr)]."""
+    if base is None:
+        base = rw.choice(BASES)
+    if tmode is None:
+        tmode = rw.choice(["float", "float", "ms", "int", "half"])
+    if n_clean is None:
+        n_clean = rw.choice([1, 1, 2, 2, 3, 4, 6])
     used = set()
     acs = [_gen_aircraft(rw, i, T, used) for i in range(n_clean)]
     # receiver: near a ground-capable aircraft (within ~0.3 deg), placed on
@@ -190,7 +190,6 @@ def generate(run_seed, tier):
             for leg in a["traj"]["legs"]:
                 if leg[3] == 1:
                     leg[1], leg[3], leg[4], leg[5] = max(leg[1], 90), 0, 1000.0, 0.0
-    budget = 1500 if tier != "quick" else 700
     msgs = []  # (t_rel, seq, kind 'a'|'c', hex, icao)
     seq = 0
     per_ac_budget = max(40, budget // (n_clean + 1))
@@ -269,6 +268,17 @@ def generate(run_seed, tier):
             f = _noisy_frame(rw, addr)
             msgs.append((tq, seq, "a" if R.hex_df(f) in (17, 18) else "c", f, addr)); seq += 1
     msgs.sort(key=lambda m: (m[0], m[1]))
+    return {"base": base, "tmode": tmode, "receiver": rcv, "aircraft": acs, "noisy": noisy, "msgs": msgs}
+
+
+def generate(run_seed, tier):
+    rw = substream(run_seed, "world")
+    rf = substream(run_seed, "faults")
+    rb = substream(run_seed, "batch")
+    long_run = tier != "quick" and rw.random() < 0.3
+    T = rw.choice([60, 120, 200, 300] + ([600, 900] if long_run else []))
+    wd = gen_world(rw, rf, T, 1500 if tier != "quick" else 700)
+    base, tmode, rcv, acs, noisy, msgs = wd["base"], wd["tmode"], wd["receiver"], wd["aircraft"], wd["noisy"], wd["msgs"]
     # batching into calls
     bstyle = rb.choice(["single", "single", "small", "small", "large", "all", "mixed"])
     calls = []
